@@ -49,25 +49,46 @@ example : ∃ c v, View.of (run c) v ∧ waitInit v = .returned :=
    ⟨true, false, false⟩, by unfold View.of; decide, by decide⟩
 
 /-- if a block is still uninitialised after the last phase, or the very first evaluation fails, or the
-    initialisation failed earlier, then the simulation is not running and a released `wait_init()` raises -/
+    initialisation failed earlier, or a recursive event was refused at any moment of the initialisation
+    (even if the exception was swallowed, e.g. by `init_from_persistent_data`), then the simulation is not
+    running and a released `wait_init()` raises -/
 theorem failed_init_raises (c : Cfg) (v : View) (hv : v.of (run c)) (hw : waitInit v ≠ .waiting)
     (h : allInitialised c (syncPhase c (afterAsync c)) = false ∨ c.cblocks.any id = true ∨
-         (afterCheck c).failed = true) :
+         (afterCheck c).failed = true ∨ (∃ d, Entry.refused d ∈ (run c).log)) :
     waitInit v = .raised ∧ (run c).running = false := by
   have hf : (run c).failed = true := by
-    rw [failed_iff_not_ok]
-    have : (run c).ok = false := by
-      rcases h with h | h | h
-      · exact firstPass_not_ok c _ (check_not_init c _ h)
-      · exact firstPass_raises c _ h
-      · apply firstPass_not_ok
+    rcases h with h | h | h | h
+    · have : (run c).ok = false := firstPass_not_ok c _ (check_not_init c _ h)
+      rw [failed_iff_not_ok, this]; rfl
+    · have : (run c).ok = false := firstPass_raises c _ h
+      rw [failed_iff_not_ok, this]; rfl
+    · rw [failed_iff_not_ok]
+      have : (run c).ok = false := by
+        apply firstPass_not_ok
         rw [failed_iff_not_ok] at h; simpa using h
-    simp [this]
+      rw [this]; rfl
+    · simp [St.failed, run_Rf c h]
   obtain ⟨_, he, _⟩ := hv
   refine ⟨?_, by simp [St.running, hf]⟩
   unfold waitInit at hw ⊢
   rw [hf] at he
   cases hd : v.simtaskDone <;> cases hi : v.initDone <;> simp_all
+
+/-- a refused recursive event sets the error register at once, whoever catches the exception
+    (patches/C11-refused-recursion-aborts.diff) -/
+theorem refused_recursion_sets_error (c : Cfg) (d : Nat) (h : Entry.refused d ∈ (run c).log) :
+    (run c).aborted = true ∧ (run c).running = false := by
+  have ha := run_Rf c ⟨d, h⟩
+  exact ⟨ha, by simp [St.running, St.failed, ha]⟩
+
+/-- the swallowed refusal of the integrator's example: the restore of block 1 (via its own event) starts an
+    event loop 1 → 0 → 2 → 1 inside `init_from_persistent_data`; the start-up fails -/
+example : ∃ c, Entry.refused 1 ∈ (run c).log ∧ (run c).failed = true ∧ (run c).errorKind = some "CircuitError" :=
+  ⟨{ n := 3, blk := fun i =>
+      if i = 0 then { dests := [2] }
+      else if i = 1 then { persist := .restores (Val.int 13) .viaEvent, dests := [0] }
+      else { persist := .restores (Val.int 12) .direct, dests := [1] },
+     fuel := 64 }, by decide, by decide, by decide⟩
 
 example : ∃ c, c.cblocks.any id = true ∧ (run c).initDone = true ∧ (run c).failed = true :=
   ⟨{ n := 1, blk := fun _ => { initdef := some (Val.int 1, .direct) }, cblocks := [true], fuel := 8 },
